@@ -44,7 +44,7 @@ def parseRepl (k v : String) : Option Repl := do
   | _ => none
 
 /-- 48 ordinary targets + 6 variadic steady targets (locations 48..53; the probe encodes the argument as a tuple) -/
-def NT : Nat := 54
+def NT : Nat := 60   -- + 54..57 function-literal targets, 58..59 generic instantiations of distinct GC shapes
 
 def addSeg (ths : List PThread) (seg : List String) : Option (List PThread) := do
   match seg with
@@ -58,7 +58,7 @@ def addSeg (ths : List PThread) (seg : List String) : Option (List PThread) := d
       else match rest with
         | ["ext", f] => do
           let fn ← f.toNat?
-          if fn < 48 then some { th with ops := th.ops ++ [.ext fn] } else none
+          if fn < NT then some { th with ops := th.ops ++ [.ext fn] } else none
         | [m, f, k, v, wo] => do
           if m != "mock" && m != "mockn" then none   -- mockn: the probe addresses the target by name; same sections
           let fn ← f.toNat?
